@@ -260,6 +260,28 @@ def call(ip, name, args, kw):
             # numpy's definition, decided exactly on numbers: |a - b| <= atol + rtol*|b|
             return bool(sp.Abs(a_ - b_) <= atol + rtol * sp.Abs(b_))
         return sp.Function("isclose")(a_, b_, rtol, atol)
+    if name in ("allclose", "isclose", "array_equal") and len(args) >= 2 and any(isinstance(a, (np.ndarray, list, tuple)) for a in args[:2]):
+        # numpy's definitions on arrays of numbers, decided exactly (|a - b| <= atol + rtol*|b| elementwise)
+        A, B = to_obj_array(args[0]), to_obj_array(args[1])
+        if name == "array_equal" and A.shape != B.shape:
+            return False
+        try:
+            A, B = np.broadcast_arrays(A, B)
+        except ValueError:
+            raise OutsideFragment(f"np.{name}: shapes {A.shape} and {B.shape} do not broadcast")
+        rtol = S(kw.get("rtol", args[2] if len(args) > 2 else sp.Rational(1, 10 ** 5)))
+        atol = S(kw.get("atol", args[3] if len(args) > 3 else sp.Rational(1, 10 ** 8)))
+        flat = [(S(x), S(y)) for x, y in zip(A.ravel(), B.ravel())]
+        if all(x.is_number and y.is_number for x, y in flat) and rtol.is_number and atol.is_number:
+            if name == "array_equal":
+                return all(bool(sp.Eq(x, y)) for x, y in flat)
+            el = [bool(sp.Abs(x - y) <= atol + rtol * sp.Abs(y)) for x, y in flat]
+            if name == "allclose":
+                return all(el)
+            return np.array(el, dtype=bool).reshape(A.shape)
+        if name == "array_equal" and all(x == y for x, y in flat):
+            return True
+        return sp.Function(name)(*[v for xy in flat for v in xy])
     if name in ("isfinite", "isnan", "isinf", "iscomplexobj", "isrealobj", "allclose", "isclose", "array_equal"):
         if name in ("isfinite", "isnan", "isinf") and isinstance(args[0], np.ndarray):
             return np.array([call(ip, name, [x], {}) for x in args[0].ravel()], dtype=bool).reshape(args[0].shape)
